@@ -125,6 +125,28 @@ theorem unsat_shr_eq_loop (L : Nat) (a : List (BitVec 64)) :
 theorem unsat_lowest_eq (L : Nat) (a : List (BitVec 64)) : UnsatInt.lowest L a = a.getD 0 0#64 := by
   round_eq
 
+/-! ## `leading_zeros`, `bits` -/
+
+theorem unsat_lz_loop_zero (L : Nat) (a : List (BitVec 64)) (count : BitVec 32) (fl : BitVec 64) :
+    UnsatInt.leading_zeros_loop1 L a 0 count fl = (count, fl) := by
+  rw [UnsatInt.leading_zeros_loop1]
+
+/-- one round of the count-down loop `while i > 0 { i -= 1; .. }`: round `n + 1` reads limb `n` -/
+theorem unsat_lz_loop_succ (L : Nat) (a : List (BitVec 64)) (n : Nat) (count : BitVec 32) (fl : BitVec 64) :
+    UnsatInt.leading_zeros_loop1 L a (n + 1) count fl =
+      UnsatInt.leading_zeros_loop1 L a n
+        (count + Choice.if_true_u32 fl ((BitVec.clz (a.getD n 0#64)).setWidth 32 - 2#32))
+        (Choice.and fl (Choice.not (Choice.from_u64_nonzero (a.getD n 0#64)))) := by
+  rw [UnsatInt.leading_zeros_loop1] <;> round_eq
+
+theorem unsat_lz_eq_loop (L : Nat) (a : List (BitVec 64)) :
+    UnsatInt.leading_zeros L a = (UnsatInt.leading_zeros_loop1 L a L 0#32 (~~~0#64)).1 := by
+  round_eq
+
+theorem unsat_bits_eq (L : Nat) (a : List (BitVec 64)) :
+    UnsatInt.bits L a = BitVec.ofNat 32 L * 62#32 - UnsatInt.leading_zeros L a := by
+  simp only [UnsatInt.bits] <;> chain_congr 4
+
 /-! ## `select`, `eq` -/
 
 theorem unsat_select_loop_zero (L : Nat) (a b : List (BitVec 64)) (ch : BitVec 64) (i : Nat) (ret : List (BitVec 64)) :
@@ -181,6 +203,32 @@ theorem de_eq (L : Nat) (m : List (BitVec 64)) (inv : BitVec 64) (t : (BitVec 64
         (UnsatInt.mul L m (deM1 inv (deM t.2.1 t.2.2 (deSign L d) (deSign L e))
           (deC t.2.1 t.2.2 (UnsatInt.lowest L d) (UnsatInt.lowest L e)))))) := by
   simp only [de, deM1, deM, deC, deSign, MASK62] <;> chain_congr 8
+
+/-! ## `divsteps`: the outer loop -/
+
+theorem divsteps_loop_zero (L : Nat) (f0 : List (BitVec 64)) (inv m : BitVec 64) (i : Nat)
+    (e g d f : List (BitVec 64)) (delta : BitVec 64) :
+    divsteps_loop1 L f0 inv m 0 i e g d f delta = (e, g, d, f, delta) := by
+  rw [divsteps_loop1]
+
+/-- one trip of `while i < m { (delta, matrix) = jump(&f.0, &g.0, delta); (f, g) = fg(f, g, matrix);
+    (d, e) = de(&f_0, inverse, matrix, d, e); i += 1; }` -/
+theorem divsteps_loop_succ (L : Nat) (f0 : List (BitVec 64)) (inv m : BitVec 64) (n i : Nat)
+    (e g d f : List (BitVec 64)) (delta : BitVec 64) (h : i < m.toNat) :
+    divsteps_loop1 L f0 inv m (n + 1) i e g d f delta =
+      divsteps_loop1 L f0 inv m n (i + 1)
+        (de L f0 inv (Gen.SafeGcd.jump f g delta).2 d e).2 (fg L f g (Gen.SafeGcd.jump f g delta).2).2
+        (de L f0 inv (Gen.SafeGcd.jump f g delta).2 d e).1 (fg L f g (Gen.SafeGcd.jump f g delta).2).1
+        (Gen.SafeGcd.jump f g delta).1 := by
+  rw [divsteps_loop1, if_pos h] <;> chain_congr 8
+
+theorem divsteps_eq_loop (L : Nat) (e f0 g : List (BitVec 64)) (inv : BitVec 64) :
+    divsteps L e f0 g inv =
+      ((divsteps_loop1 L f0 inv (Gen.SafeGcd.iterations (UnsatInt.bits L f0) (UnsatInt.bits L g))
+          (Gen.SafeGcd.iterations (UnsatInt.bits L f0) (UnsatInt.bits L g)).toNat 0 e g (List.replicate L 0#64) f0 1#64).2.2.1,
+       (divsteps_loop1 L f0 inv (Gen.SafeGcd.iterations (UnsatInt.bits L f0) (UnsatInt.bits L g))
+          (Gen.SafeGcd.iterations (UnsatInt.bits L f0) (UnsatInt.bits L g)).toNat 0 e g (List.replicate L 0#64) f0 1#64).2.2.2.1) := by
+  simp only [divsteps] <;> chain_congr 8
 
 /-! ## the word arithmetic of a round on `Nat`s -/
 
